@@ -16,7 +16,7 @@ namespace PyGql.Props.C20
 open PyGql PyGql.Differ PyGql.Diff
 
 theorem diffSchema_zero (o n : SchemaD) :
-    diffSchema o n 0 = findRemovedTypes o n ++ findAddedTypes o n ++ diffDirectives o n ++ findChangedTypes o n
+    diffSchema o n 0 = diffRootTypes o n ++ findRemovedTypes o n ++ findAddedTypes o n ++ diffDirectives o n ++ findChangedTypes o n
       ++ diffUnionTypes o n ++ diffEnumTypes o n ++ diffObjectTypes o n ++ diffInterfaceTypes o n
       ++ diffInputTypes o n := by
   unfold diffSchema
@@ -29,6 +29,8 @@ theorem reported_at_severity (o n : SchemaD) (c : Change) (m : Nat) (h : c ∈ d
   rw [min_severity_filters]
   exact List.mem_filter.mpr ⟨h, by simpa using hs⟩
 
+private theorem of_roots {o n : SchemaD} {c : Change} (h : c ∈ diffRootTypes o n) : c ∈ diffSchema o n 0 := by
+  rw [diffSchema_zero]; simp [h]
 private theorem of_directives {o n : SchemaD} {c : Change} (h : c ∈ diffDirectives o n) : c ∈ diffSchema o n 0 := by
   rw [diffSchema_zero]; simp [h]
 private theorem of_changed {o n : SchemaD} {c : Change} (h : c ∈ findChangedTypes o n) : c ∈ diffSchema o n 0 := by
@@ -43,6 +45,50 @@ private theorem of_interface {o n : SchemaD} {c : Change} (h : c ∈ diffInterfa
   rw [diffSchema_zero]; simp [h]
 private theorem of_input {o n : SchemaD} {c : Change} (h : c ∈ diffInputTypes o n) : c ∈ diffSchema o n 0 := by
   rw [diffSchema_zero]; simp [h]
+
+/-! ### root operation types (repair G2: they were not compared at all) -/
+
+/-- the root type name of an operation kind -/
+def rootOf (s : SchemaD) : String → Option String
+  | "query" => s.query | "mutation" => s.mutation | "subscription" => s.subscription | _ => none
+
+private theorem mem_roots (o n : SchemaD) (op : String) (hop : op = "query" ∨ op = "mutation" ∨ op = "subscription")
+    (c : Change)
+    (hc : c ∈ (match rootOf o op, rootOf n op with
+      | none, none => []
+      | none, some b => [mk "RootTypeAdded" [("operation", op), ("type_name", b)]]
+      | some a, none => [mk "RootTypeRemoved" [("operation", op), ("type_name", a)]]
+      | some a, some b =>
+        if a != b then [mk "RootTypeChanged" [("new_type_name", b), ("old_type_name", a), ("operation", op)]] else [])) :
+    c ∈ diffSchema o n 0 := by
+  apply of_roots
+  unfold diffRootTypes
+  simp only [List.flatMap_cons, List.flatMap_nil, List.mem_append, List.append_nil]
+  rcases hop with h | h | h <;> subst h <;> simp only [rootOf] at hc
+  · exact Or.inl hc
+  · exact Or.inr (Or.inl hc)
+  · exact Or.inr (Or.inr hc)
+
+theorem root_type_changed_reported (o n : SchemaD) (op a b : String)
+    (hop : op = "query" ∨ op = "mutation" ∨ op = "subscription")
+    (ho : rootOf o op = some a) (hn : rootOf n op = some b) (hab : a ≠ b) :
+    mk "RootTypeChanged" [("new_type_name", b), ("old_type_name", a), ("operation", op)] ∈ diffSchema o n 0 := by
+  apply mem_roots o n op hop
+  simp [ho, hn, hab]
+
+theorem root_type_removed_reported (o n : SchemaD) (op a : String)
+    (hop : op = "query" ∨ op = "mutation" ∨ op = "subscription")
+    (ho : rootOf o op = some a) (hn : rootOf n op = none) :
+    mk "RootTypeRemoved" [("operation", op), ("type_name", a)] ∈ diffSchema o n 0 := by
+  apply mem_roots o n op hop
+  simp [ho, hn]
+
+theorem root_type_added_reported (o n : SchemaD) (op b : String)
+    (hop : op = "query" ∨ op = "mutation" ∨ op = "subscription")
+    (ho : rootOf o op = none) (hn : rootOf n op = some b) :
+    mk "RootTypeAdded" [("operation", op), ("type_name", b)] ∈ diffSchema o n 0 := by
+  apply mem_roots o n op hop
+  simp [ho, hn]
 
 /-! ### types -/
 
